@@ -222,7 +222,12 @@ dt_io_find_strpdt2(
 	struct dt_dt_s d = {DT_UNK};
 	const char *needle = needles->needle;
 	const char *p = str;
-	const char *const zp = str + len;
+	const char *zp = str + len;
+	/* a match of a format with a needle, formats without one
+	 * get a go at the text in front of it */
+	struct dt_dt_s nd = {DT_UNK};
+	const char *nsp = NULL;
+	char *nep = NULL;
 
 	for (; (p = xmempbrk(p, zp - p, needle)) < zp && *p; p++) {
 		/* find the offset */
@@ -254,12 +259,23 @@ dt_io_find_strpdt2(
 					continue;
 				}
 				if (!dt_unk_p(d = dt_strpdt(q, fmt, ep))) {
-					p = q;
-					goto found;
+					if (*needle !=
+					    GRPATM_NEEDLELESS_MODE_CHAR) {
+						p = q;
+						goto found;
+					}
+					/* there's formats without needle,
+					 * they may match further left */
+					nd = d;
+					nsp = q;
+					nep = *ep;
+					zp = q;
+					goto classes;
 				}
 			}
 		}
 	}
+classes:
 	/* otherwise check character classes */
 	for (size_t i = 0; needle[i] == GRPATM_NEEDLELESS_MODE_CHAR; i++) {
 		struct grpatm_payload_s f = needles->flesh[i];
@@ -382,6 +398,13 @@ dt_io_find_strpdt2(
 				}
 			}
 		}
+	}
+	if (nsp != NULL) {
+		/* nothing in front of the match found earlier */
+		d = nd;
+		p = nsp;
+		*ep = nep;
+		goto found;
 	}
 	/* reset to some sane defaults */
 	*ep = (char*)(p = str);
